@@ -111,6 +111,8 @@ DAMAGE = [
     cell('damage_zpack', 'harness.h_damage', 'damage_zpack', (300, 900), bounds=B_DAMAGE + '; compressed obj2: sub-range flipped or pack truncated', samples=[dict(S_DAMAGE, s2=900, a=10, n=5, z=30), dict(S_DAMAGE, s2=900, a=12, n=0, z=30)]),
     cell('damage_zrow', 'harness.h_damage', 'damage_zrow', (300, 900), bounds=B_DAMAGE + '; offset/length/size of the row of a compressed object perturbed', samples=[dict(S_DAMAGE, s2=900, a=-3, field=0, z=30), dict(S_DAMAGE, s2=900, a=3, field=1, z=30), dict(S_DAMAGE, s2=900, a=-3, field=2, z=30)]),
     cell('damage_packid', 'harness.h_damage', 'damage_packid', (200, 600), bounds=B_DAMAGE + '; pack_id of a row perturbed', samples=[dict(S_DAMAGE, a=1)]),
+    cell('damage_multi', 'harness.h_damage', 'damage_multi', (300, 900), bounds='three packs of one object each (plain, compressed, plain), a symbolic sub-range of one of them flipped; sizes in [1,70000]',
+         samples=[dict(s1=5, s2=900, s3=7, which=0, a=0, n=1, z=30), dict(s1=5, s2=900, s3=7, which=1, a=3, n=2, z=30), dict(s1=5, s2=900, s3=7, which=2, a=6, n=1, z=30)]),
     cell('damage_reach', 'harness.h_damage', 'damage_reach', (120, 300), bounds=B_DAMAGE, expect='REFUTED'),
 ]
 DUPS = [
@@ -428,8 +430,8 @@ CHECKS = {
                      'a nondeterministic zlib contract (vf/vcodec.py: consumed/produced counts chosen by the solver within '
                      'what zlib documents, incl. zero input consumed when the output limit is hit); at most 2 decompress() '
                      'calls per step (oracle tape of 5 draws; longer paths are outside the bound); read(-1) is the loop over '
-                     'read(_CHUNKSIZE) steps and is not explored separately (it did not exhaust); decompresser seek, the loose cache '
-                     'and LazyLooseStream are not covered; counterexamples of the zread cells are replayed on the real code '
+                     'read(_CHUNKSIZE) steps and is not explored separately (it did not exhaust); the loose cache / LazyLooseStream and the second-chance look-up are '
+                     'covered by the seeker_* / seeker2 cells (scheduled unlinks, see C04); counterexamples of the zread cells are replayed on the real code '
                      'over the model codec only (the real-zlib reproduction of F7 is design_probes/real9.py)'],
     ),
     'C08': dict(
@@ -531,6 +533,15 @@ CHECKS = {
             cell('backup_again', 'harness.h_backup', 'backup_again', (900, 1800), thorough_only=True,
                  bounds='two successive backups (the second incremental on the first), events during the first',
                  samples=[dict(s0=66000, wal=False, tp=6, tc=7, cl=False)]),
+        ] + [
+            cell('backup_incr_%s_%s_%s' % (wl, cl, sm), 'harness.h_backup', 'backup_incr_%s_%s_%s' % (wl, cl, sm), (500, 1500),
+                 bounds='two successive backups, the second incremental (--link-dest; quick check on size + modification time to the second, '
+                 'or content with --checksum); pack (clean_loose_per_pack=%s) and clean at instants tp <= tc in [10,17] (between the backups / '
+                 'early in the second); %s; %s' % (cl == 'clean', 'a further client keeps an index connection open' if wl == 'wal' else
+                 'no further connection', 'both backups in the same wall-clock second' if sm == 'same' else 'second backup in a later second'),
+                 samples=[dict(s0=66000, tp=12, tc=12), dict(s0=5, tp=10, tc=16)])
+            for wl in ('wal', 'nowal') for cl in ('keep', 'clean') for sm in ('later', 'same')
+        ] + [
             cell('backup_reach', 'harness.h_backup', 'backup_reach', (300, 600), expect='REFUTED'),
         ],
         functions=['backup_utils.backup_container', 'backup_utils.BackupManager.__init__/call_rsync/run_cmd/backup_auto_folders/'
@@ -587,7 +598,12 @@ CHECKS = {
                      'the 1000-row paging literal is replaced by a symbolic page size of 1..3 through a checked source rewrite (cell paging)'],
     ),
     'C17': dict(
-        cells=crash_cells('fault', ALL_OPS),
+        cells=crash_cells('fault', ALL_OPS) + [
+            cell('perm_pack', 'harness.h_sched', 'perm_pack', (400, 1200), samples=[dict(S_CRASH, at=1, clean=True), dict(S_CRASH, at=2, clean=False)],
+                 bounds=B_CRASH_Q + '; the at-th (1..8) opening of a file for reading fails with PermissionError (the error pack_all_loose handles by skipping the object); with/without clean_loose_per_pack'),
+            cell('perm_other', 'harness.h_sched', 'perm_other', (400, 1200), samples=[dict(S_CRASH, at=1, which=0), dict(S_CRASH, at=1, which=2)],
+                 bounds=B_CRASH_Q + '; the same read-open PermissionError during add loose / repack / import'),
+        ],
         functions=F_WRITE + ['Container.delete_objects'],
         assumptions=['single fault: the I/O-relevant call number `at` raises OSError before taking effect (SQL statements '
                      'and commits included; reported as OSError, which the code under test does not catch either); then '
@@ -607,5 +623,7 @@ CHECKS = {
     ),
 }
 
+# the streams of objects served through the re-loosened cache / the second-chance look-up are storage forms of C07 too
+CHECKS['C07']['cells'] = CHECKS['C07']['cells'] + [c for c in CHECKS['C04']['cells'] if c['name'].startswith(('seeker_p', 'seeker2'))]
 # seeking / chunked readers of compressed objects are part of "what is read back" (C10)
 CHECKS['C10']['cells'] = CHECKS['C10']['cells'] + [c for c in CHECKS['C07']['cells'] if c['name'] in ('zseek_zero', 'zseek_back', 'zread_small')]
